@@ -347,7 +347,7 @@ def evPipe : Ev → Option Pipe
 set_option maxHeartbeats 4000000 in
 /-- Every handler keeps the acceptance ledger. -/
 theorem acc_pure (slot : Slot) (ev : Ev) (h : Pre slot ev = true) (hw : slotWf slot = true) (ts : List Task)
-    (hts : isOpn slot = false → ts = []) (v : Option (Pipe × Bool)) (hv : v.map (·.2) = inbEntry slot)
+    (hts : isValidating slot = true → ts = []) (v : Option (Pipe × Bool)) (hv : v.map (·.2) = inbEntry slot)
     (hp : ∀ p, evPipe ev = some p → v.map (·.1) = some p) :
     (newEvs ts (handle slot ev).2).foldl astep (some (accOf slot v))
       = some (accOf (handle slot ev).1 ((handle slot ev).2.foldl hsInF v)) := by
